@@ -18,6 +18,12 @@ Denial.tla part 2: admission / expiry ORDER into the denial-proof index and the 
     a scripted downstream, virtual clock, same predicate.
 HashMemo.tla (checks/x02hm.py): the request-tree NSEC3 hash memo under concurrent validations -- TLC-generated schedules
     forced on the real verifiers over one shared memo set; predicate: a denial accepted while sharing the memo is true.
+DenialProof.tla, Race = TRUE (checks/x04dp.py run_race_tier; gap C02-r3-1): the ORDER of admission vs lookup that part 2 cannot
+    show because its Synthesise is one atomic call -- the aggressive lookup as snapshot capture / lock-free evaluation /
+    quarantine re-check + shaping, other clients' admissions and zone changes in between, the NSEC3 conflict quarantine;
+    the lookup is held on the real pipeline (index clock seam, production BeginNSEC3Hash) against live signed zones;
+    predicate: a released lookup never denies a name/type that exists from a ring the index had tombstoned before.
+    Runs next to parts 1-3 (own thread: TLC + one go driver), class c02/ only.
 """
 import concurrent.futures
 import hashlib
@@ -26,6 +32,7 @@ import random
 
 import vf
 import x02hm
+import x04dp
 
 MODULE = "Denial"
 SPEC = "MC_Denial.tla"
@@ -157,6 +164,25 @@ def run(ctx, replay):
     if replay:
         return run_replay(ctx, replay)
 
+    # ---- part 4 runs next to parts 1-3: the lookup-in-flight dimension of DenialProof.tla on the real pipeline.  Both
+    # sibling tiers' overlay shims are listed before anything is built so that one overlay file serves every driver.
+    x02hm.ensure_overlay(ctx)
+    x04dp.ensure_overlay(ctx)
+    ctx.harness_prepare()
+    ctx.overlay_file()
+    race_pool = concurrent.futures.ThreadPoolExecutor(max_workers=1)
+    race = race_pool.submit(x04dp.run_race_tier, ctx)
+    try:
+        run_parts(ctx, thorough)
+    except BaseException:
+        race.cancel()
+        race_pool.shutdown(wait=True)
+        raise
+    race_pool.shutdown(wait=True)
+    race.result()
+
+
+def run_parts(ctx, thorough):
     if not thorough:
         with concurrent.futures.ThreadPoolExecutor(max_workers=2) as ex:
             f1 = ex.submit(sound, ctx, "MC_Sound_quick.cfg", 5, 900)
@@ -230,6 +256,10 @@ def run_replay(ctx, path):
     rp = doc.get("replay", {})
     if rp.get("family") in ("gated", "limiter", "free", "alone"):
         return x02hm.replay_file(ctx, path)
+    if isinstance(rp, dict) and rp.get("driver") == "x04dp":
+        x04dp.ONLY = "C02"
+        x04dp.run_replay(ctx, path)
+        return
     cfg = "MC_Sound_thorough.cfg" if doc.get("tier") == "thorough" else "MC_Sound_quick.cfg"
     _, zones, cases = sound(ctx, cfg, 6, 3000)
     if "steps" in rp:
